@@ -16,7 +16,7 @@ RULE = ('cases = (taxonomy forest, set of matched taxa, order of encounter); exh
         '(thorough: 6 taxa with matched sets up to 4) x every non-empty matched subset x every order; classify(strict=True) on every '
         'permutation of <=6 reference genomes for seeded forests biased to {species, its subspecies, sibling} conflicts; '
         'non-trivial = matched set has >=2 taxa; distinct = (forest, ordered matched tuple) by hash')
-ASSUMPTIONS = ['oracle vf/oracles/taxonomy.py; thresholds are float32-representable',
+ASSUMPTIONS = ['oracle vf/oracles/taxonomy.py; a single-precision distance is compared with the double-precision threshold as real numbers (thresholds include 0.2, 0.7 and 0.9, distances their single-precision values)',
                'warnings are not judged when the prediction is None (the statement fixes only success=False + error there)',
                'any minimum-distance eligible genome is accepted as primary match']
 REACH = ['gambit.classify:consensus_taxon', 'gambit.classify:find_matches', 'gambit.classify:classify', 'gambit.classify:matching_taxon']
@@ -112,7 +112,7 @@ def run_cons_small(sh, ctx):
 		check_consensus(ctx, gc, model, otaxa, (None, 0, 1, 0), [order])
 
 
-THRS = [None, 0.0, 0.125, 0.25, 0.5, 0.75, 1.0]
+THRS = [None, 0.0, 0.125, 0.25, 0.5, 0.75, 1.0, 0.2, 0.7, 0.9]   # 0.2 / 0.7 / 0.9 are not single-precision values: float32(0.2) > 0.2, float32(0.7) < 0.7, float32(0.9) < 0.9
 GRID = [0.0, 0.0625, 0.125, 0.2, 0.25, 0.4, 0.5, 0.7, 0.75, 0.9, 1.0]
 
 
